@@ -354,6 +354,14 @@ func (w *world) loaderStage(b *LBeh, k int, names []string, byMask map[int][2]se
 
 	// ---- no crash: every request runs to the end on one searcher
 	as := fracmanager.MustStartAsync(fracmanager.AsyncSearcherConfig{DataDir: dir, Parallelism: b.NR}, w.e.MP, w.e.FM())
+	drain := func(s *fracmanager.AsyncSearcher) { // nothing may run on when the store (and its directory) goes away
+		if res != nil {
+			for _, q := range reqs {
+				waitDoneID(s, q.id, 3*time.Second)
+			}
+		}
+	}
+	defer func() { drain(as) }()
 	for _, q := range reqs {
 		if m := start(as, q); m != nil {
 			return m
@@ -429,6 +437,7 @@ func (w *world) loaderStage(b *LBeh, k int, names []string, byMask map[int][2]se
 			return &mismatch{"infra", "image not built: " + what}
 		}
 		as2 := fracmanager.MustStartAsync(fracmanager.AsyncSearcherConfig{DataDir: dir2, Parallelism: b.Par}, w.e.MP, w.e.FM())
+		defer func() { drain(as2) }()
 		if persisted >= 2 {
 			lRestarts.Add(1)
 			nontriv.Add(1)
